@@ -416,6 +416,7 @@ type path struct {
 	ast       *astLink           // imported syntax trees (astimport.go)
 	execInit  map[*execUnit]bool // executed generated packages whose initialiser ran (exec.go)
 	randCount int
+	syncMaps  map[*value]*smap  // sync.Map states (threads.go)
 	jdocs     map[*value]*jnode // documents rendered by the encoding/json model (jsonmodel.go)
 	curFr     *frame
 	curIn     ssa.Instruction
